@@ -337,6 +337,8 @@ class Interp:
             return v
         if name in _BUILTIN_INTRINSICS:
             return Intrinsic(name, _BUILTIN_INTRINSICS[name])
+        if name == "__name__":
+            return mod.name
         if name in ("ValueError", "RuntimeError", "KeyError", "AttributeError", "NotImplementedError", "TypeError",
                     "Exception", "AssertionError", "IndexError"):
             return External(name)
